@@ -177,6 +177,7 @@ type CoreOptions struct {
 	Tokens    bool
 	Chains    int      // number of chains (default 2)
 	Mesh      bool     // also link chain 0 and chain 2
+	NoAlias   bool     // never send v2-over-alias transfers (worlds that go on after a genesis restart, see C44 known findings)
 	ManyChans bool     // 12 transfer channels on the first link (identifiers that prefix each other)
 	Denoms    []string // extra native denominations held by every user
 	WXfer     int
